@@ -51,6 +51,7 @@ func (c *c19Conn) Read(p []byte) (int, error) {
 func c19RawResponse(c *fw.Ctx) {
 	res := c.Res
 	hostKey := types.NewPrivateKeyFromSeed(make([]byte, 32))
+	lastDelivered := 0 // bytes of the response frame handed to the renter in the last exchange
 	// one exchange: the host answers with `payload` (or an error); the renter reads through RawResponse
 	run := func(payload []byte, rpcErr error, flipAt, cutAt int) (got []byte, rawErr, tagErr error, closed bool, panicked string) {
 		c1, c2 := net.Pipe()
@@ -98,6 +99,7 @@ func c19RawResponse(c *fw.Ctx) {
 		c1.Close()
 		c2.Close()
 		<-done
+		lastDelivered = cc.n
 		return
 	}
 	// (1) valid messages of every size in windows around the padding / block boundaries are delivered and authenticate
@@ -135,7 +137,14 @@ func c19RawResponse(c *fw.Ctx) {
 		} else {
 			payload = bytes.Repeat([]byte{0x5a}, 300)
 		}
-		frameLen := 8 + 4096 // length prefix + minimal frame
+		// the frame as it is on the wire: measured on an unmodified exchange (the length prefix is part of the
+		// minimal 4096-byte message, so offsets at and beyond the measured length modify nothing)
+		if _, rawErr, tagErr, _, pan := run(payload, rpcErr, -1, -1); pan != "" || (kind == "data" && (rawErr != nil || tagErr != nil)) {
+			res.Note("rhp2-raw: unmodified %s exchange failed: %v %v %s", kind, rawErr, tagErr, pan)
+			continue
+		}
+		frameLen := lastDelivered
+		res.CountN("rhp2-raw:frame-bytes:"+kind, frameLen)
 		step := c.Budget(37, 1)
 		for off := 0; off < frameLen; off += step {
 			for _, mode := range []string{"flip", "cut"} {
